@@ -48,6 +48,8 @@ def run(ck):
                 if not b0["runs"][k].startswith("OK "):
                     continue
                 bad = None
+                if b1["compile"].startswith("TIMEOUT"):
+                    continue        # the wall-clock limit of the harness, not a verdict (counted by C01 as skipped)
                 if b1["compile"] != "OK":
                     bad = "with optimisation the program no longer compiles: " + b1["compile"][:160]
                 elif b1["runs"][k] != b0["runs"][k]:
